@@ -74,6 +74,11 @@ CHECKS = {
          'Every bulk_write of a session (connect with signature, shell, stat, 3-WRTE push, pull) may accept all / 1 / len-1 / half of the bytes and reports the count: all placements of <=2 '
          '(thorough 3) deviations, plus global capacities 1..4095, both twins; whenever a call returns normally the device model must have received exactly the byte stream of the unlimited run.',
          'trusts adbsim; the real-socket half of C15 (loopback with small SO_SNDBUF) is exercised by the loopback part added with C18', '4/C15'),
+ 'C16': ('exploration', 'differential exploration: every generated program runs through both twins under the same recorded choice list',
+         'Nine program families (operation sequences with fragment deviations, all handshake decision sequences, failing transfers, a fault at every transport-call index, stalls, availability '
+         'sequences with empty paths, push sources x callbacks / pull destinations / id wrap, early device close, short writes) are executed through AdbDevice and AdbDeviceAsync against twin '
+         'device models; host packet logs, results, exception types, `available` per step, device-side files, callback invocations and the choice-point structure must be equal.',
+         'trusts adbsim and the in-memory twin transports; exception messages are not compared; TcpTransport vs TcpTransportAsync is compared in C18', '4/C16'),
 }
 NOT_YET = 'check not built yet in this round (planned, see DESIGN.md section 4); not claimed until it runs'
 
